@@ -49,6 +49,19 @@ CHECKS["C11"] = dict(
     design_ref="DESIGN.md#c11",
 )
 
+CHECKS["C05"] = dict(
+    category="fault_enumeration",
+    text="Real runs (in-process `st run` for the real exit code and report, and from_schema().execute() with the CLI's own "
+    "ExecutionContext) against a scripted API whose log is the ground truth; every behaviour (5xx / undocumented status / wrong "
+    "content type / bad body / closed connection on the k-th request) and every single fault at each guarded pipeline point "
+    "(test construction, case entry, transport, check execution, stateful step, task producer, CLI handler; hit<=3) plus the "
+    "consumer-race delays are enumerated per base configuration. Oracle: ground truth => failed scenario+phase, failure recorded "
+    "with the offending request, exit!=0; exit 0 => nothing went wrong and every operation is accounted for.",
+    note="Single faults at the guarded points, not at arbitrary bytecodes; runs cut short by max_failures are judged on exit code and >=1 recorded failure.",
+    technique="runtime monitoring: fault injection at guarded hook points + ground-truth (server log) vs report oracle",
+    design_ref="DESIGN.md#c05",
+)
+
 NOT_APPLICABLE = {}
 
 
